@@ -126,6 +126,13 @@ EXTRA.update({
     "nonascii-prefix.py": ("python", "improper-logging", 2, "def show(x):\n    s = \"%s\"; print(x)\n    return s\n" % _ACC),
     "nonascii-prefix.ts": ("typescript", "magic-numbers.numeric-literal", 2, "function wait(q: number): number {\n  const s = \"%s\"; return q * 3975;\n}\n" % _ACC),
 })
+# decorated constructs: the class / function header is the line carrying the keyword and the name, not the decorator
+EXTRA.update({
+    "srp-decorated.py": ("python", "srp", 4, "import functools\n\n@functools.total_ordering\nclass OrderManager:\n    def run(self):\n        return 1\n"),
+    "srp-decorated-multiline.py": ("python", "srp", 6, "import dataclasses\n\n@dataclasses.dataclass(\n    frozen=True,\n)\nclass OrderHelper:\n    x: int = 0\n"),
+    "srp-decorated.ts": ("typescript", "srp", 2, "@Injectable()\nclass UserManager {\n  run() {\n    return 1;\n  }\n}\n"),
+    "srp-decorated-exported.ts": ("typescript", "srp", 2, "@Injectable()\nexport class UserHandler {\n  run() {\n    return 1;\n  }\n}\n"),
+})
 _P = {}
 _TIER = {"t": "quick"}
 
